@@ -2,7 +2,7 @@ SPECIFICATION Spec
 CONSTANTS
   MaxItems = 2
   KS = {"r_class", "r_attr", "d_ident", "d_str", "d_num", "d_urlq", "media", "fontface", "comment"}
-  CS = {"latin1", "astralsym", "private", "quotes2", "backslash", "newline"}
+  CS = {"latin1", "private", "quotes2", "newline"}
   SH = {"mid"}
   CT = {}
   FN = {}
